@@ -336,6 +336,8 @@ class Interp:
             return z3.And(J.is_jbool(a.z), J.b(a.z) == b.z)
         if isinstance(a, VOpaque) and isinstance(b, VOpaque):
             return self.eq(a, b)
+        if isinstance(a, VObj) and isinstance(b, VObj):
+            return z3.BoolVal(a is b or a.oid == b.oid)
         if isinstance(a, VObj) or isinstance(b, VObj):
             return z3.BoolVal(a is b or (isinstance(a, VObj) and isinstance(b, VObj) and a.oid == b.oid))
         return self.eq(a, b)
@@ -798,6 +800,16 @@ class Interp:
 
     def havoc_target(self, tg, fr):
         kind = tg[0]
+        if kind == "local" and len(tg) > 2:
+            # ("local", name, f1, ..., fn): a field reached from a local object (through optionals)
+            o = fr.lookup(tg[1])
+            for p in tg[2:-1]:
+                o = o.inner if isinstance(o, VOpt) else o
+                o = o.fields.get(p) if isinstance(o, VObj) else None
+            o = o.inner if isinstance(o, VOpt) else o
+            if isinstance(o, VObj) and o.fields.get(tg[-1]) is not None:
+                o.fields[tg[-1]] = self.fresh_like(o.fields[tg[-1]], tg[-1])
+            return
         if kind == "local":
             cur = fr.lookup(tg[1])
             if cur is None:
@@ -1097,8 +1109,11 @@ class Interp:
         return VStr(parts[0] if len(parts) == 1 else z3.Concat(*parts), "str")
 
     def e_Yield(self, e, fr):
-        # generators are outside the subset; a property module may give `yield` a meaning
-        # (e.g. the inlineCallbacks protocol) through reg.ext_models["yield"]
+        # generators are outside the subset; a property module may give `yield` a meaning (the
+        # inlineCallbacks protocol) through reg.yield_model(it, node, fr) or reg.ext_models["yield"]
+        h2 = getattr(self.reg, "yield_model", None)
+        if h2 is not None:
+            return h2(self, e, fr)
         h = self.reg.ext_models.get("yield")
         if h is None:
             raise OutOfSubset(f"expression Yield at line {getattr(e, 'lineno', '?')}")
@@ -1214,6 +1229,11 @@ class Interp:
                 self.ctx.assume(b.z > 0)
                 self.reg.note("integer // and % only modelled for positive divisors")
             return VInt(a.z / b.z) if isinstance(op, ast.FloorDiv) else VInt(a.z % b.z)
+        if isinstance(op, (ast.RShift, ast.LShift)) and isinstance(a, VInt) and isinstance(b, VInt):
+            # shifts by a constant: floor division / multiplication by 2**k (exact, also for negative a)
+            cb = self.concrete(b)
+            if isinstance(cb, int) and 0 <= cb <= 256:
+                return VInt(a.z / (2 ** cb)) if isinstance(op, ast.RShift) else VInt(a.z * (2 ** cb))
         if isinstance(op, ast.Div) and isinstance(a, (VInt, VReal)) and isinstance(b, (VInt, VReal)):
             if self.ctx.branch(self._real(b) == 0):
                 self.raise_("ZeroDivisionError")
@@ -2032,7 +2052,7 @@ _NOCONST = _NoConst()
 BUILTINS = {"len", "isinstance", "int", "str", "bytes", "list", "dict", "set", "tuple", "sorted", "range", "min", "max",
             "print", "type", "repr", "getattr", "hasattr", "bool", "filter", "map", "zip", "enumerate", "any", "all",
             "sum", "abs", "ord", "chr", "hex", "float", "object", "super", "iter", "next", "callable", "open", "id",
-            "frozenset", "reversed", "bytearray", "issubclass", "setattr", "divmod", "round", "hash"}
+            "frozenset", "reversed", "bytearray", "issubclass", "setattr", "divmod", "round", "hash", "input"}
 
 _pcache = {}
 
